@@ -14,7 +14,9 @@ import (
 	"context"
 	"encoding/binary"
 	"encoding/hex"
+	"errors"
 	"fmt"
+	"net"
 	"os"
 	"runtime"
 	"time"
@@ -222,7 +224,7 @@ func runBatch(c *vh.Ctx, cs Case) {
 		}
 		if wire != nil {
 			l := newLink()
-			frameThroughReceive(c, cs, l, wire, "batch")
+			frameThroughReceive(c, cs, &l, wire, "batch")
 			l.close()
 		}
 	}
@@ -353,37 +355,64 @@ type link struct {
 	server  p2p.Client      // accepting side
 }
 
+// newLink opens a loopback QUIC pair; on a loaded machine the handshake can
+// time out, so it is tried several times.
 func newLink() *link {
+	var last any
+	for attempt := 0; attempt < 6; attempt++ {
+		l, err := tryLink()
+		if err == nil {
+			return l
+		}
+		last = err
+		time.Sleep(time.Duration(attempt+1) * time.Second)
+	}
+	panic(fmt.Sprint("no loopback quic link: ", last))
+}
+
+func tryLink() (*link, error) {
 	rl, err := p2p.NewQuicRelayer("127.0.0.1:0")
 	if err != nil {
-		panic(err)
+		return nil, err
 	}
-	acc := make(chan p2p.Client, 1)
+	type accepted struct {
+		c   p2p.Client
+		err error
+	}
+	acc := make(chan accepted, 1)
 	go func() {
 		s, err := rl.Accept(context.Background())
-		if err != nil {
-			panic(err)
-		}
-		acc <- s
+		acc <- accepted{s, err}
 	}()
 	cl, err := p2p.NewQuicConsumer(context.Background(), p2p.VerifRelayerAddr(rl))
 	if err != nil {
-		panic(err)
+		rl.Close()
+		return nil, err
+	}
+	fail := func(err error) (*link, error) {
+		cl.Close("retry")
+		rl.Close()
+		return nil, err
 	}
 	// the accepting side only sees the stream once data flows on it
 	if err := cl.Send([]byte("open")); err != nil {
-		panic(err)
+		return fail(err)
 	}
 	var srv p2p.Client
 	select {
-	case srv = <-acc:
-	case <-time.After(15 * time.Second):
-		panic("quic accept timeout")
+	case a := <-acc:
+		if a.err != nil {
+			return fail(a.err)
+		}
+		srv = a.c
+	case <-time.After(30 * time.Second):
+		return fail(fmt.Errorf("quic accept timeout"))
 	}
 	if m, err := srv.Receive(); err != nil || string(m.Data) != "open" {
-		panic(fmt.Sprint("quic open ", err))
+		srv.Close("retry")
+		return fail(fmt.Errorf("quic open %v", err))
 	}
-	return &link{rl, cl, srv}
+	return &link{rl, cl, srv}, nil
 }
 
 func (l *link) close() {
@@ -414,6 +443,10 @@ func runFrames(c *vh.Ctx, cs Case) {
 		} else {
 			serr = l.client.Send(data)
 		}
+		if isTimeout(rerr) || isTimeout(serr) {
+			c.Count("inconclusive(transport timeout)")
+			return
+		}
 		accepted := serr == nil
 		c.Case("send", fmt.Sprint("send", n), accepted, cs, vh.App("CSendSize", vh.ZI(int64(n)), vh.Bool(accepted)))
 		if accepted != (n >= 1 && n <= maxSize) {
@@ -438,26 +471,64 @@ func runFrames(c *vh.Ctx, cs Case) {
 	}
 }
 
+// isTimeout: the error is an expired deadline / idle timeout of the transport
+// (a loaded machine), not a decision of the framing code.  Such an outcome says
+// nothing about the property; the exchange is repeated on a fresh connection.
+func isTimeout(err error) bool {
+	if err == nil {
+		return false
+	}
+	if errors.Is(err, os.ErrDeadlineExceeded) || errors.Is(err, context.DeadlineExceeded) {
+		return true
+	}
+	var ne net.Error
+	return errors.As(err, &ne) && ne.Timeout()
+}
+
 // frameThroughReceive sends data with the real Send and takes it from the other
 // end with the real QuicClient.Receive (the limit is whatever Receive itself
-// passes).  Only sizes go to the model.  Returns false when the link is no longer usable.
-func frameThroughReceive(c *vh.Ctx, cs Case, l *link, data []byte, what string) bool {
+// passes).  Only sizes go to the model.  *lp is replaced by a fresh link when
+// the old one is no longer usable.
+func frameThroughReceive(c *vh.Ctx, cs Case, lp **link, data []byte, what string) bool {
 	n := len(data)
 	var m *p2p.TransportMessage
 	var rerr, serr error
 	sendOk := false
-	if n >= 1 && n <= maxSize {
-		errc := make(chan error, 1)
-		go func() { errc <- l.client.Send(data) }()
-		m, rerr = l.server.Receive()
-		if rerr != nil {
-			l.server.Close("refused") // lets the blocked Send return
+	for attempt := 0; ; attempt++ {
+		l := *lp
+		m, rerr, serr = nil, nil, nil
+		if n >= 1 && n <= maxSize {
+			errc := make(chan error, 1)
+			go func() { errc <- l.client.Send(data) }()
+			m, rerr = l.server.Receive()
+			if rerr != nil {
+				l.server.Close("refused") // lets the blocked Send return
+			}
+			serr = <-errc
+			sendOk = serr == nil || rerr != nil // a receiver that stopped reading is not a refusal by Send
+		} else {
+			serr = l.client.Send(data)
+			sendOk = serr == nil
 		}
-		serr = <-errc
-		sendOk = serr == nil || rerr != nil // a receiver that stopped reading is not a refusal by Send
-	} else {
-		serr = l.client.Send(data)
-		sendOk = serr == nil
+		if isTimeout(rerr) || (rerr == nil && isTimeout(serr)) {
+			l.close()
+			*lp = newLink()
+			if attempt < 2 {
+				c.Count("retry(transport timeout)")
+				time.Sleep(time.Duration(attempt+1) * 3 * time.Second)
+				continue
+			}
+			if n <= 1<<16 {
+				// a small frame needs no bandwidth: three stalls in a row on fresh connections are the code's
+				c.Case("bigframe:"+what, fmt.Sprint("bigframe", what, n), false, cs, vh.App("CFrameBig", vh.ZI(int64(n)), vh.Bool(true), vh.Err("Z")))
+				c.Fail("frame-stalled", fmt.Sprintf("a %d-byte message (%s) that Send accepts never arrived whole: Receive ran into its read deadline three times on fresh connections", n, what), cs)
+				return false
+			}
+			c.Count("inconclusive(transport timeout)")
+			c.Note(fmt.Sprintf("a %d-byte frame (%s) timed out in the transport three times; not evaluated", n, what))
+			return true
+		}
+		break
 	}
 	obs := vh.Err("Z")
 	same := false
@@ -468,15 +539,41 @@ func frameThroughReceive(c *vh.Ctx, cs Case, l *link, data []byte, what string) 
 		}
 	}
 	c.Case("bigframe:"+what, fmt.Sprint("bigframe", what, n), same, cs, vh.App("CFrameBig", vh.ZI(int64(n)), vh.Bool(sendOk), obs))
+	broken := false
 	if sendOk != (n >= 1 && n <= maxSize) {
 		c.Fail("send-guard", fmt.Sprintf("Send of %d bytes (%s): accepted=%v (%v)", n, what, sendOk, serr), cs)
-		return false
-	}
-	if sendOk && !same {
+		broken = true
+	} else if sendOk && !same {
 		c.Fail("frame-roundtrip", fmt.Sprintf("a %d-byte message (%s), which Send accepts and which is within the transport maximum %d, did not come back from Receive unchanged (%v)", n, what, maxSize, rerr), cs)
-		return false
+		broken = true
 	}
-	return true
+	if broken || rerr != nil {
+		(*lp).close()
+		*lp = newLink()
+	}
+	return !broken
+}
+
+// runSweep frames every payload length of a range (and the neighbourhood of the
+// powers of two above it) through the real Send / Receive: sizes only go to the model.
+func runSweep(c *vh.Ctx, cs Case) {
+	r := vh.NewRand(cs.Seed, "c31/sweep")
+	l := newLink()
+	defer func() { l.close() }()
+	var sizes []int
+	for n := cs.Sizes[0]; n <= cs.Sizes[1]; n++ {
+		sizes = append(sizes, n)
+	}
+	for p := 12; p <= 16; p++ {
+		for d := -7; d <= 7; d++ {
+			sizes = append(sizes, 1<<uint(p)+d)
+		}
+	}
+	for _, n := range sizes {
+		if !frameThroughReceive(c, cs, &l, r.Bytes(n), "sweep") {
+			return // the first broken length is the replay; the rest would only repeat it
+		}
+	}
 }
 
 func runBigFrames(c *vh.Ctx, cs Case) {
@@ -488,10 +585,7 @@ func runBigFrames(c *vh.Ctx, cs Case) {
 		for i := 0; i+8 <= n; i += 8 {
 			binary.LittleEndian.PutUint64(data[i:], r.U64())
 		}
-		if !frameThroughReceive(c, cs, l, data, "synthetic") {
-			l.close()
-			l = newLink()
-		}
+		frameThroughReceive(c, cs, &l, data, "synthetic")
 	}
 }
 
@@ -506,19 +600,29 @@ func runRawReal(c *vh.Ctx, cs Case) {
 	if raw[0] == p2p.TransportMessageVersion && announced <= maxSize && announced > 0 {
 		panic("rawreal would block waiting for a body")
 	}
-	l := newLink()
-	defer l.close()
-	if _, err := p2p.VerifRawWrite(l.server, raw); err != nil {
-		panic(err)
+	var m *p2p.TransportMessage
+	var rerr error
+	var el time.Duration
+	var alloc uint64
+	for attempt := 0; attempt < 2; attempt++ { // a read timeout is confirmed on a second, fresh connection
+		l := newLink()
+		if _, err := p2p.VerifRawWrite(l.server, raw); err != nil {
+			l.close()
+			continue
+		}
+		var ms0, ms1 runtime.MemStats
+		runtime.GC()
+		runtime.ReadMemStats(&ms0)
+		t0 := time.Now()
+		m, rerr = l.client.Receive()
+		el = time.Since(t0)
+		runtime.ReadMemStats(&ms1)
+		alloc = ms1.TotalAlloc - ms0.TotalAlloc
+		l.close()
+		if !isTimeout(rerr) {
+			break
+		}
 	}
-	var ms0, ms1 runtime.MemStats
-	runtime.GC()
-	runtime.ReadMemStats(&ms0)
-	t0 := time.Now()
-	m, rerr := l.client.Receive()
-	el := time.Since(t0)
-	runtime.ReadMemStats(&ms1)
-	alloc := ms1.TotalAlloc - ms0.TotalAlloc
 	obs := vh.Err("Z")
 	if rerr == nil {
 		obs = vh.Ok(vh.ZI(int64(len(m.Data))))
@@ -527,8 +631,8 @@ func runRawReal(c *vh.Ctx, cs Case) {
 	if announced > maxSize {
 		if rerr == nil {
 			c.Fail("oversize-accepted", fmt.Sprintf("Receive accepted a header announcing %d bytes, above the transport maximum %d", announced, maxSize), cs)
-		} else if el > 5*time.Second {
-			c.Fail("oversize-waits-for-body", fmt.Sprintf("refusing a header announcing %d bytes took %v: the body was awaited", announced, el), cs)
+		} else if isTimeout(rerr) {
+			c.Fail("oversize-waits-for-body", fmt.Sprintf("refusing a header announcing %d bytes ended in a read timeout after %v: the body was awaited", announced, el), cs)
 		} else if alloc >= uint64(announced) {
 			c.Fail("oversize-allocated", fmt.Sprintf("refusing a header announcing %d bytes allocated %d bytes", announced, alloc), cs)
 		}
@@ -540,20 +644,30 @@ func runRaw(c *vh.Ctx, cs Case) {
 	if err != nil {
 		panic(err)
 	}
-	l := newLink()
-	defer l.close()
-	if _, err := p2p.VerifRawWrite(l.server, raw); err != nil {
-		panic(err)
-	}
 	limit := cs.Limit
-	var ms0, ms1 runtime.MemStats
-	runtime.GC()
-	runtime.ReadMemStats(&ms0)
-	t0 := time.Now()
-	m, rerr := p2p.VerifReceiveWithLimit(l.client, limit)
-	el := time.Since(t0)
-	runtime.ReadMemStats(&ms1)
-	alloc := ms1.TotalAlloc - ms0.TotalAlloc
+	var m *p2p.TransportMessage
+	var rerr error
+	var el time.Duration
+	var alloc uint64
+	for attempt := 0; attempt < 2; attempt++ { // a read timeout is confirmed on a second, fresh connection
+		l := newLink()
+		if _, err := p2p.VerifRawWrite(l.server, raw); err != nil {
+			l.close()
+			continue
+		}
+		var ms0, ms1 runtime.MemStats
+		runtime.GC()
+		runtime.ReadMemStats(&ms0)
+		t0 := time.Now()
+		m, rerr = p2p.VerifReceiveWithLimit(l.client, limit)
+		el = time.Since(t0)
+		runtime.ReadMemStats(&ms1)
+		alloc = ms1.TotalAlloc - ms0.TotalAlloc
+		l.close()
+		if !isTimeout(rerr) {
+			break
+		}
+	}
 	obs := vh.Err(frT)
 	if rerr == nil {
 		obs = vh.Ok("(" + vh.NU(uint64(m.Version)) + ", " + vh.Bytes(m.Data) + ")")
@@ -564,8 +678,8 @@ func runRaw(c *vh.Ctx, cs Case) {
 		if limit > 0 && limit <= maxSize && announced > limit {
 			if rerr == nil {
 				c.Fail("oversize-accepted", fmt.Sprintf("a header announcing %d bytes was accepted under the limit %d", announced, limit), cs)
-			} else if el > 5*time.Second {
-				c.Fail("oversize-waits-for-body", fmt.Sprintf("refusing a header announcing %d bytes took %v: the body was awaited", announced, el), cs)
+			} else if isTimeout(rerr) {
+				c.Fail("oversize-waits-for-body", fmt.Sprintf("refusing a header announcing %d bytes ended in a read timeout after %v: the body was awaited", announced, el), cs)
 			} else if announced >= 1<<20 && alloc >= uint64(announced) {
 				c.Fail("oversize-allocated", fmt.Sprintf("refusing a header announcing %d bytes allocated %d bytes", announced, alloc), cs)
 			}
@@ -590,6 +704,8 @@ func run(c *vh.Ctx, cs Case) {
 		runFrames(c, cs)
 	case "bigframes":
 		runBigFrames(c, cs)
+	case "sweep":
+		runSweep(c, cs)
 	case "rawreal":
 		runRawReal(c, cs)
 	case "raw":
@@ -624,7 +740,7 @@ func main() {
 		"ten 4 MB storage transactions); random small batches, one batch of 6 transactions of 238x256 signatures " +
 		"(24 MB signed, crosses the 2/3 threshold) in the quick tier and the 9-transaction batch (36 MB signed, F8 shape) in the " +
 		"thorough and search tiers; bundle/relay builders on random sizes and at the maximum +-1; QUIC loopback frames of sizes " +
-		"0,1,..,max,max+1, frames of 16 MiB+1 / 2/3 max / max (thorough: 1, 8, 16 MiB +-1, max-1) and the real batch messages through the real Receive with its own limit, raw headers through the real Receive (max+1, 2 max, 2^32-1) and raw headers (wrong version, size = limit, limit+1, 2^32-1). Non-trivial = the loop sent a batch / the " +
+		"0,1,..,max,max+1, every payload length 1..2200 and 2^12..2^16 +-7, frames of 16 MiB+1 / 2/3 max / max (thorough: 1, 8, 16 MiB +-1, max-1) and the real batch messages through the real Receive with its own limit, raw headers through the real Receive (max+1, 2 max, 2^32-1) and raw headers (wrong version, size = limit, limit+1, 2^32-1). Non-trivial = the loop sent a batch / the " +
 		"builder or framing returned a value; distinct by shapes / sizes."
 	if c.Replay != "" {
 		var cs Case
@@ -659,6 +775,8 @@ func main() {
 		bigSizes = []int{1 << 20, 8 << 20, 16<<20 - 1, 16 << 20, 16<<20 + 1, maxSize * 2 / 3, maxSize*2/3 + 1020 + 2, maxSize - 1, maxSize, maxSize + 1}
 	}
 	cases = append(cases, Case{Op: "bigframes", Seed: r.U64(), Sizes: bigSizes})
+	// every payload length 1..2200 and around 4 KiB .. 64 KiB
+	cases = append(cases, Case{Op: "sweep", Seed: r.U64(), Sizes: []int{1, 2200}})
 	for _, a := range []uint32{maxSize + 1, 2 * maxSize, 0xffffffff} {
 		cases = append(cases, Case{Op: "rawreal", Data: hdr(2, a, 0)})
 	}
